@@ -111,6 +111,7 @@ type Sim struct {
 	trace     []string
 	startTime time.Time
 	simElapsed time.Duration
+	ended      bool
 
 	nodes []*Node
 
@@ -184,6 +185,7 @@ func RunBubble(t *testing.T, cfg Config, root func(s *Sim)) (s *Sim) {
 		go s.taskMain(s.root, func() { root(s) })
 		s.loop()
 		s.simElapsed = time.Since(s.startTime)
+		s.ended = true
 		if cfg.OnEnd != nil {
 			cfg.OnEnd(s)
 		}
@@ -383,7 +385,7 @@ func (s *Sim) Switches() int          { return s.switches }
 func (s *Sim) InterleavingHash() uint64 { return s.hash }
 func (s *Sim) Trace() []string        { return s.trace }
 func (s *Sim) SimElapsed() time.Duration {
-	if s.simElapsed != 0 {
+	if s.ended { // (a run may end at the very instant it started: zero is a value, not "unset")
 		return s.simElapsed
 	}
 	return time.Since(s.startTime)
